@@ -2,9 +2,10 @@
 import json
 import os
 import sys
+from collections.abc import Mapping
 
 from core.engine import Property, F
-from props.c15_learners import Scripted, dec, enc, freeze, is_batch, HINT
+from props.c15_learners import Scripted, dec, enc, freeze, is_batch, HINT, DICT_FLAVOURS, MAPPING_FLAVOURS
 
 LCG_A, LCG_C, LCG_M = 116646453, 9, 2 ** 30
 HINTS = ("action", "action_prob", "pmf")
@@ -92,6 +93,10 @@ def in_quantifier(case):
                 if k in ("t", "l") and len(x) == 2 and kind_of(x[0])[0] in ("i", "b", "n") and any(
                         kind_of(a)[0] in ("i", "b", "n") and freeze(dec(a)) == freeze(dec(x[0])) and type(dec(a)) is type(dec(x[0])) for a in row["actions"]):
                     return False, "un-hinted two-item action whose first item is itself an offered action"
+    if kw and case.get("kwmap") in MAPPING_FLAVOURS and batch and layout == "col" and hinted:
+        # batch_order / raise_if_not_valid_out recognise `[{hint: column}, kwargs]` with isinstance(p, dict): a kwargs Mapping
+        # that is not a dict is not accepted there by the code as it stands (everywhere else `abc.Mapping` is tested)
+        return False, "column-major hinted answer with a non-dict kwargs Mapping"
     if batch and layout == "col" and not hinted:
         if fmt == "PM" and len(first[0]["actions"]) < 2:
             return False, "un-hinted column-major PMF over one action has the shape of a column of actions"
@@ -166,7 +171,7 @@ def run_case(case):
                 break
             rec["np1"] = len(learner.predict_calls)
             rec["out"] = out
-            if not (isinstance(out, tuple) and len(out) == 3 and isinstance(out[2], dict) and all(isinstance(k, str) for k in out[2])):
+            if not (isinstance(out, tuple) and len(out) == 3 and isinstance(out[2], Mapping) and all(isinstance(k, str) for k in out[2])):
                 break
             try:
                 safe.learn(ctx, out[0], rwd, out[1], **out[2])
@@ -249,10 +254,10 @@ def monitor(case, learner, recs):
         if batch:
             keys = list(exp[0][2])
             wkw = {k: [e[2][k] for e in exp] for k in keys}
-            gkw = {k: (list(v) if isinstance(v, (list, tuple)) else v) for k, v in KW.items()} if isinstance(KW, dict) else KW
+            gkw = {k: (list(v) if isinstance(v, (list, tuple)) else v) for k, v in KW.items()} if isinstance(KW, Mapping) else KW
         else:
             wkw, gkw = exp[0][2], KW
-        if not (isinstance(KW, dict) and same(gkw, wkw)):
+        if not (isinstance(KW, Mapping) and same(gkw, wkw)):
             bad("%s: kwargs %s returned, the learner gave %s" % (where, short(KW), short(wkw)), "kwargs-wrong")
             break
         # per-row invocation of a learner that cannot handle batches: once per row, in order
@@ -421,7 +426,7 @@ class Refs:
             return {"t": [self.ref(o), [self.enc(e) for e in o]]}
         if isinstance(o, list):
             return {"l": [self.ref(o), [self.enc(e) for e in o]]}
-        if isinstance(o, dict):
+        if isinstance(o, Mapping):
             if not all(isinstance(k, str) for k in o):
                 raise Unencodable("non-string dict key")
             return {"d": [self.ref(o), [[k, self.enc(v)] for k, v in o.items()]]}
@@ -655,6 +660,11 @@ def gen_case(rng, stress=0.3):
             "fmt": fmt, "kw": kw, "layout": layout, "batch": batch,
             "wrap": rng.choice(["tuple", "list"]), "pmf_type": rng.wchoice([(3, "list"), (1, "tuple")]),
             "nobatch": rng.wchoice([(3, "raise"), (1, "none"), (1, "keyerror")]), "e2e": rng.chance(0.35), "calls": []}
+    if kw:
+        # the kwargs payload in several Mapping flavours (SafeLearner.has_kwargs tests abc.Mapping)
+        case["kwmap"] = rng.wchoice([(5, "dict"), (1, "ordered"), (1, "default"), (1, "subclass"), (2, "proxy"), (2, "plain"), (2, "chain")])
+        if case["kwmap"] in MAPPING_FLAVOURS and layout == "col" and batch and fmt in HINT:
+            case["kwmap"] = "ordered"      # see in_quantifier: the only place where the code requires a dict
     acts = gen_actions(rng, kind, K)
     K = len(acts)
     ncols = {"A": 1, "AP": 2, "PM": K}.get(fmt, 1) + (1 if kw else 0)
@@ -772,7 +782,7 @@ class C15(Property):
             "20 kinds of action sets (ints incl. 0/1, bools, probability-like floats, 0.0/1.0, strings, one-hot tuples/lists, 1-3 item tuples, "
             "sparse dicts with equal/different feature names, mixed) of 1-5 actions, also changing / equal-but-retyped between calls; batch sizes 1-4 "
             "biased to the number of actions and of answer columns (square case); PMFs one-hot int/float/mixed or dyadic (exact float sums); "
-            "30% of cases stress 0/1-like answers next to 0/1-like action sets; 35% also run through SequentialCB.evaluate; 15% of cases are outside "
+            "kwargs payloads in 7 Mapping flavours (50% dict, 15% dict subclasses, 30% non-dict Mappings); 30% of cases stress 0/1-like answers next to 0/1-like action sets; 35% also run through SequentialCB.evaluate; 15% of cases are outside "
             "the quantifier (copies/aliases of offered objects, malformed PMFs, hint-named features) and are checked by (A) only. "
             "non-trivial = in-quantifier case for which the real code returned a result for every call, with >= 2 rows overall or a PMF draw; "
             "distinct by canonical JSON of the case")
@@ -786,6 +796,8 @@ class C15(Property):
     assumptions = ["the learner is a function of (context, actions): the same row is answered the same way in batch, per-row and probe calls",
                    "a SafeLearner is used either always batched or never (as an evaluator does)",
                    "kwargs of the rows of one batch have the same keys (theorems: in the same order); kwargs keys are not named action/action_prob/pmf",
+                   "the kwargs payload is any abc.Mapping (dict, OrderedDict/defaultdict/dict subclasses, MappingProxyType, a plain Mapping class, ChainMap); "
+                   "the model's dict stands for Mapping; a non-dict Mapping after a column-major hinted answer is outside (the code tests isinstance(.., dict) there)",
                    "un-hinted column-major answers: not a single column for a single-row first batch, PMFs over >= 2 actions (design limits, see ambiguity_characterised and notes)"]
     partial_theorems = {"format_roundtrip_pinned_partial": "the pinned commit violates the property in the regions of the recorded defects C15-F1..F4 "
                         "(excluded by the fx=Fixes.none disjuncts of firstRowOK / dictRowsOK / colParseOK and, for C15-F2, by the float-copy premise of "
@@ -812,6 +824,8 @@ class C15(Property):
         name = "%s/%s%s" % (("not" if not batch else layout), fmt, "+kw" if case.get("kw") else "")
         inq, why = in_quantifier(case)
         tags += ["fmt:" + name, "quant:" + ("in" if inq else "out:" + why[:40])]
+        if case.get("kw"):
+            tags.append("kwmap:%s/%s" % (case.get("kwmap", "dict"), "not" if not batch else layout))
         dclass = defect_class(case)
         tags.append("class:" + dclass)
         impl = outcome_impl(recs)
@@ -954,6 +968,8 @@ class C15(Property):
                     yield dict(case, calls=calls[:k] + [call[:i] + [dict(r, ctx={"i": i})] + call[i + 1:]] + calls[k + 1:])
         if case.get("seed") not in (None, 1):
             yield dict(case, seed=1)
+        if case.get("kwmap") not in (None, "dict"):
+            yield dict(case, kwmap="dict")
         if case.get("wrap") == "list":
             yield dict(case, wrap="tuple")
         if case.get("pmf_type") == "tuple":
@@ -1000,6 +1016,16 @@ def corpus_cases():
                             rows = [row(acts, (i + off) % K, i) for i in range(n)]
                             cs.append({"seed": 1, "fmt": fmt, "kw": kw, "layout": "single" if mode == "not" else mode, "batch": mode != "not",
                                        "e2e": fmt in ("A", "PM", "dAP") and an in ("int01", "str", "sparse"), "calls": [rows, rows[:1]]})
+    for flav in DICT_FLAVOURS[1:] + MAPPING_FLAVOURS:
+        for fmt in FMTS:
+            for mode in ("not", "single", "row", "col"):
+                if flav in MAPPING_FLAVOURS and mode == "col" and fmt in HINT:
+                    continue
+                acts = sets["str"]
+                for n in ((1,) if mode == "not" else (1, 2, 3)):
+                    rows = [row(acts, (i + 1) % 3, i, kw=[[{"s": "step"}, {"i": i}], [{"s": "note"}, {"s": "x"}]]) for i in range(n)]
+                    cs.append({"seed": 1, "fmt": fmt, "kw": True, "kwmap": flav, "layout": "single" if mode == "not" else mode, "batch": mode != "not",
+                               "e2e": flav in ("proxy", "plain") and fmt in ("A", "AP"), "calls": [rows, rows[:1]]})
     seen, out = set(), []
     for c in cs:
         k = json.dumps(c, sort_keys=True)
